@@ -472,6 +472,14 @@ func execStep(env *Env, task int, st *Step) Result {
 		var r *canvas.Path
 		if st.AsPaths {
 			as, bs := canvas.Paths(a.Split()), canvas.Paths(b.Split())
+			switch st.EmptySub {
+			case 1:
+				as = append(as, &canvas.Path{})
+			case 2:
+				bs = append(bs, &canvas.Path{})
+			case 3:
+				as = append(canvas.Paths{&canvas.Path{}}, as...)
+			}
 			switch st.Op {
 			case "and":
 				r = as.And(bs)
@@ -502,7 +510,14 @@ func execStep(env *Env, task int, st *Step) Result {
 	case "settle":
 		a := operandA(env, task, st)
 		if st.AsPaths {
-			return pathResult(canvas.Paths(a.Split()).Settle(fillRules[st.FillRule%4]))
+			as := canvas.Paths(a.Split())
+			switch st.EmptySub {
+			case 1, 2:
+				as = append(as, &canvas.Path{})
+			case 3:
+				as = append(canvas.Paths{&canvas.Path{}}, as...)
+			}
+			return pathResult(as.Settle(fillRules[st.FillRule%4]))
 		}
 		return pathResult(a.Settle(fillRules[st.FillRule%4]))
 	case "stroke":
